@@ -256,6 +256,22 @@ def own_packets(tier, seed):
                     out.append(({'own': 'key', 'alg': a, 'form': 'protected %s/%s' % (enc.name, h.name), 'index': i, 'tag': tag}, raw))
             if tier == 'quick':
                 break
+    # P-521 is the one curve whose coordinate size (521 bits) is not a whole number of octets: fresh keys and fresh ephemeral points,
+    # several of each because the leading octet of a coordinate is zero for about half of them
+    from pgpy.constants import PubKeyAlgorithm, EllipticCurveOID
+    for i in range(6 if tier == 'quick' else 24):
+        k = pgpy.PGPKey.new(PubKeyAlgorithm.ECDSA, EllipticCurveOID.NIST_P521, created=T0)
+        k.add_uid(pgpy.PGPUID.new('P-521 %d' % i), usage={KeyFlags.Certify, KeyFlags.Sign}, created=T0)
+        e = pgpy.PGPKey.new(PubKeyAlgorithm.ECDH, EllipticCurveOID.NIST_P521, created=T0)
+        k.add_subkey(e, usage={KeyFlags.EncryptCommunications}, created=T0)
+        for form, blob in (('secret', bytes(k)), ('public', bytes(k.pubkey))):
+            for j, (tag, body, raw) in enumerate(indep.packets(blob)):
+                if tag in (5, 6, 7, 14):
+                    out.append(({'own': 'key', 'alg': 'P-521 #%d' % i, 'form': form, 'index': j, 'tag': tag}, raw))
+        em = k.pubkey.encrypt(pgpy.PGPMessage.new(b'to a P-521 key'), cipher=SymmetricKeyAlgorithm.AES256)
+        for j, (tag, b, raw) in enumerate(indep.packets(bytes(em))):
+            if tag == 1:
+                out.append(({'own': 'encrypted message', 'to': 'P-521 ecdh #%d' % i, 'index': j, 'tag': tag}, raw))
     # signatures of the C02 component (every option), EdDSA and one more algorithm
     cases = sc.forward_cases(tier, random.Random(seed))
     for a in algs[:2] if tier == 'quick' else algs:
